@@ -73,6 +73,16 @@ CHECKS = {
    text="Theorems for every receiver option, panel count, tubes per panel and option assignment: reduce_total, tubes_partition, rigid_shares_node (+ rigid_tubes_one_node), disconnect_alone, components_solvable, orientation, numeric_link_kept, fjDisp_orient, assembly_linear (F_int = K d, J = K, K = sum k_e (e_i-e_j)(e_i-e_j)^T, orientation independent, numeric link carries k*(d_i-d_j)), plus pinned_witness for the repaired F16. Tied to srlife by comparing, exactly, the built network, node representatives, reduced components, validate_solve verdict and dof maps of the real make_network/remove_rigid/split_disconnect with the model over ALL 3^(1+P) assignments for P <= 2 (thorough: P <= 3) and 1-3 tubes per panel with all numeric option types, 1000 random multigraphs, the real fj/RJ assembly on Float, and by solving every sub-problem with the real solve_all (stub tubes) and the full SpringSystemSolver with real 1-D FEM tubes against an independent direct-stiffness solution (force balance, shared displacement, alone-equivalence, k*delta).",
    note="Trusted: Lean kernel + Mathlib; networkx iteration order is not modelled (canonical forms are compared); uniqueness of the residual zero when K_ff is nonsingular and Newton convergence (C17) are not proved; at least one tube in the receiver.",
    design="4/C04"),
+ "C01": dict(
+   technique="Lean 4 proof over any linearly ordered field (envelope geometry and ray crossing in closed form, integer bisection for the last-cycle mode, minimum over tubes and points by list induction) + Float correspondence with the real damage calculator + independent envelope predicate on real lives",
+   text="Theorems: inside_antitone, crossing_spec (N(f,c) inside iff N <= Ncross f c), maxCycles_spec (zero / unbounded / finite with the threshold property) for lumped extrapolation, maxCycles_last_spec for last-cycle extrapolation, receiverLife_is_min, receiverLife_below_above (below the life every point is inside, above it some point is outside), creepCycle_def/creepWindow_def (time-fraction sum with the rupture time at the END of each interval), fatigue_def (1/Nf(max T, max pairwise equivalent range)); for any number of tubes, points, time steps and days, rupture time and cycles-to-failure as arbitrary functions. Tied to srlife by comparing cycle windows, creep_damage, fatigue_damage, per-tube cycles and determine_life of the real TimeFractionInteractionDamage with the model on Float for all six shipped metallic materials, both modes and the three regimes, and by recomputing the damages independently and evaluating the real inside_envelope just below/above the returned life at every point.",
+   note="Trusted: Lean kernel + Mathlib; scipy brentq (replaced by the closed-form crossing / integer bisection, agreement checked at 1e-9); fatigue windows half-open as coded; the poly extrapolation mode is outside the property's quantifier; rounding.",
+   design="4/C01"),
+ "C09": dict(
+   technique="Lean 4 proof (rotation invariance of von Mises stress and equivalent strain range via matrix trace identities; List.Perm invariance of minima; offset, repetition and scaling algebra; antitonicity) + metamorphic runs of the real determine_life",
+   text="Theorems: sixComponent_matrix, vonMises_rot, eqRange_rot, life_rot (every orthogonal Q, both modes), life_perm, range_offset/life_offset, lump_repeat, life_scale, life_antitone, add_tube, worse_loads. Tied to srlife by metamorphic pairs on the real code: random rotations of all stress/strain samples, permutations of tubes/elements/quadrature points (exact), constant strain offsets, 1-4 repetitions of a day, scaling of per-cycle damages through the real make_extrapolate/calculate_max_cycles, worse stresses/strain ranges at one point, an extra tube; plus a reduced model correspondence on base and transformed inputs.",
+   note="Trusted: as C01; monotonicity under worse loads uses that rupture time / cycles to failure are antitone on the recorded ranges (proved for the shipped data in C20); point-level antitonicity is proved for the lumped mode only.",
+   design="4/C09"),
 }
 PENDING_REASON = "check not built yet in this round (work in progress; see DESIGN.md section 4 for the planned model and theorems) — not claimed"
 
